@@ -8,7 +8,7 @@ LEVEL = "other"
 from lib.core import existing_modules
 LEAN_MODULES = ["Sonic.Props.C04"]
 REQUIRED_THEOREMS = ["Sonic.Props.C04." + n for n in ["C04_tables", "C04_scan_grammar", "C04_int_kinds", "C04_accumulate", "C04_zero", "C04_fast_exact",
-                                                         "C04_fast_path_correct", "Rne_monotone", "C04_retry_sound"]]
+                                                         "C04_fast_path_correct", "Rne_monotone", "C04_retry_sound", "Rne_spec"]]
 CONFIGS = [("avx2", "prod"), ("sse", "prod"), ("avx2", "san")]
 CONFIGS_THOROUGH = CONFIGS + [("dyn", "prod"), ("sse", "san")]
 RULE = ("number texts: for every decimal exponent -348..347 (every row of the power-of-ten table) mantissas 1, 2^53-1, 2^53+1, 10^16-1, "
@@ -89,6 +89,25 @@ def generate(rng, tier):
             extra = rng.choice([0, 0, 1, 3, 30, 200]) if dm else 0
             mm = m * 10 ** (extra + 1) + dm
             T(_spell(rng, mm, e - extra - 1))
+    # overflow / underflow boundaries spelled with every mantissa width 1..19 (the guards of the fast paths depend on the
+    # digit count): largest finite, first decimal that rounds to infinity, and around the smallest subnormal
+    from fractions import Fraction as _F
+    dmax = _F(struct.unpack("<d", struct.pack("<Q", 0x7FEFFFFFFFFFFFFF))[0])
+    over = dmax + _F(2) ** 969          # DBL_MAX + half ulp: rounds to infinity (tie to even -> up)
+    tiny = _F(1, 2 ** 1075)             # half the smallest subnormal: rounds to zero (tie to even)
+    for nd in range(1, 20):
+        e = 308 - (nd - 1)
+        m_over = -((-over.numerator) // (over.denominator * 10 ** e))   # ceil
+        for m in (m_over - 1, m_over, m_over + 1, 10 ** nd - 1, 10 ** (nd - 1)):
+            if m > 0:
+                T(("%de%d" % (m, e)).encode())
+                T(("-%dE+%d" % (m, e)).encode())
+                T(("%de%d" % (m, e + 1)).encode())
+        e2 = -324 - (nd - 1)
+        m_t = (tiny.numerator * 10 ** (-e2)) // tiny.denominator
+        for m in (m_t - 1, m_t, m_t + 1, m_t * 2, m_t * 3 + 1):
+            if m > 0:
+                T(("%de%d" % (m, e2)).encode())
     for base in (2 ** 63, 2 ** 64, 10 ** 19, 10 ** 18, 2 ** 53, 10 ** 20):
         for d in range(-3, 4):
             T(str(base + d).encode())
